@@ -171,43 +171,7 @@ Proof.
     rdone.
 Qed.
 
-(* ------------------------------------------------------------------ insert / push / replace / Entry::push with such an operand *)
-Lemma relations_insert_sub ts tid ri T a b d te pe sl G idx :
-  nth_error ts tid = Some (mk_slot true ri T) ->
-  nth_error ts te = Some sl -> get_path (s_tree sl) pe = Some G ->
-  runs (relations_insert fixed 0 idx 3) (st5 ts (mk_hnd tid []) a b (Some (mk_hnd te pe)) d) tt
-       (st5 (ts ++ [mk_slot true 0 (relations_insert_green fixed T idx G)])
-            (mk_hnd (length ts) []) a b None d).
-Proof.
-  intros HT HE HG. unfold relations_insert, st5.
-  rbind; [apply runs_get_reg; reflexivity|].
-  rbind; [eapply runs_node_of; [exact HT|reflexivity]|].
-  rbind; [unfold node_of_reg; rbind; [apply runs_get_reg; reflexivity|]; eapply runs_node_of; [exact HE|exact HG]|].
-  rbind; [eapply runs_replace_with_root; exact HT|].
-  rbind; [unfold reroot_self; rbind; [apply runs_alloc|]; apply runs_set_reg|].
-  apply runs_set_reg.
-Qed.
-Lemma insert_runs_sub idx ts tid ri T a b d te pe sl G :
-  nth_error ts tid = Some (mk_slot true ri T) -> nth_error ts te = Some sl -> get_path (s_tree sl) pe = Some G ->
-  runs (run_op fixed (OInsert idx 1)) (st5 ts (mk_hnd tid []) a b (Some (mk_hnd te pe)) d) (0%N, None)
-       (st5 (ts ++ [mk_slot true 0 (relations_insert_green fixed T idx G)]) (mk_hnd (length ts) []) a b None d).
-Proof.
-  intros HT HE HG. cbn [run_op]. unfold st5. eapply runs_with_reg_some; [reflexivity|].
-  rbind; [apply (relations_insert_sub ts tid ri T a b d te pe sl G idx HT HE HG)|]. rdone.
-Qed.
-Lemma push_runs_sub ts tid ri T a b d te pe sl G :
-  nth_error ts tid = Some (mk_slot true ri T) -> nth_error ts te = Some sl -> get_path (s_tree sl) pe = Some G ->
-  runs (run_op fixed (OPush 1)) (st5 ts (mk_hnd tid []) a b (Some (mk_hnd te pe)) d) (0%N, None)
-       (st5 (ts ++ [mk_slot true 0 (relations_insert_green fixed T (count_if is_entry (children T)) G)])
-            (mk_hnd (length ts) []) a b None d).
-Proof.
-  intros HT HE HG. cbn [run_op]. unfold st5. eapply runs_with_reg_some; [reflexivity|].
-  rbind; [|rdone]. unfold relations_push.
-  rbind; [apply runs_get_reg; reflexivity|].
-  rbind; [eapply runs_children_of; [exact HT|reflexivity]|].
-  apply (relations_insert_sub ts tid ri T a b d te pe sl G _ HT HE HG).
-Qed.
-
+(* ------------------------------------------------------------------ replace with such an operand (insert / push / Entry::push: RelEditStP) *)
 Lemma replace_runs_sub k pre E post G ts tid ri a b d te re Te pc ic idx :
   nth_error ts tid = Some (mk_slot true ri (Node k (pre ++ E :: post))) ->
   nth_index is_entry idx (pre ++ E :: post) = Some (length pre) ->
@@ -232,48 +196,6 @@ Proof.
     rbind; [exact R|]. cbn [map option_map].
     rewrite (A (mk_hnd tid [])) by (cbn [h_tid]; auto using above_root).
     eapply runs_eq; [apply runs_set_reg|reflexivity|]. reflexivity.
-  - exact T'.
-Qed.
-
-Lemma epush_runs_sub k epre E epost G ts tid ri b c tr pr sl :
-  nth_error ts tid = Some (mk_slot true ri (Node k (epre ++ E :: epost))) ->
-  nth_error ts tr = Some sl -> get_path (s_tree sl) pr = Some G ->
-  exists ts' a' b' c' x,
-    runs (run_op fixed (OEPush 0 1))
-         (st5 ts (mk_hnd tid []) (Some (mk_hnd tid [length epre])) b c (Some (mk_hnd tr pr))) x
-         (st5 ts' (mk_hnd tid []) a' b' c' None) /\
-    nth_error ts' tid = Some (mk_slot true ri (Node k (epre ++ entry_push_green E G :: epost))).
-Proof.
-  intros HT HR HGr. set (T := Node k (epre ++ E :: epost)) in *.
-  assert (HG : get_path T [] = Some (Node k (epre ++ E :: epost))) by reflexivity.
-  assert (HGe : get_path T [length epre] = Some E) by (cbn [get_path T children]; now rewrite nth_error_app_len).
-  pose proof (nth_error_Some_lt _ _ _ HT) as Hlt.
-  set (rs := [Some (mk_hnd tid []); Some (mk_hnd tid ([] ++ [length epre])); b; c; Some (mk_hnd tr pr)]).
-  assert (Hnode : is_node (entry_push_green E G) = true).
-  { unfold entry_push_green. destruct (entry_push_plan (children E) G). reflexivity. }
-  destruct (reroot_spec ts rs 1 tid ri T [] k epre E epost (entry_push_green E G) eq_refl HT HG Hnode)
-    as (ts' & rs' & R & L & T' & S & A).
-  destruct (list5 rs' L) as (x0 & x1 & x2 & x3 & x4 & ->).
-  pose proof (A 0 (mk_hnd tid []) ltac:(lia) eq_refl Hlt (above_root _ _ _)) as E0.
-  cbn [nth_error] in E0, S. inversion E0; subst x0. inversion S; subst x1.
-  exists ts', (Some (mk_hnd tid ([] ++ [length epre]))), x2, x3. eexists. split.
-  - cbn [run_op]. change (rreg 1) with 4. change (ereg 0) with 1. unfold st5.
-    eapply runs_with_reg_some; [reflexivity|].
-    rbind; [apply runs_has_reg|]. cbn [nth_error].
-    rbind.
-    { unfold entry_push. rbind; [apply runs_get_reg; reflexivity|].
-      rbind; [eapply runs_node_of; [exact HT|exact HGe]|].
-      rbind; [unfold node_of_reg; rbind; [apply runs_get_reg; reflexivity|]; eapply runs_node_of; [exact HR|exact HGr]|].
-      cbn [s_tree fx_entry_push fixed].
-      rbind; [rdone|].
-      rbind; [exact R|]. apply runs_set_reg. }
-    cbn [set_reg_l]. unfold reg_text, node_of_reg.
-    rbind.
-    { rbind.
-      { rbind; [apply runs_get_reg; reflexivity|]. eapply runs_node_of; [exact T'|].
-        cbn [app s_tree get_path upd_path children]. rewrite nth_error_app_len. reflexivity. }
-      rdone. }
-    rdone.
   - exact T'.
 Qed.
 
@@ -532,23 +454,27 @@ Definition preplace_ready (o : pop) (T : rtree) : Prop :=
   end.
 
 Theorem pop_step_tree o T T' st :
-  poperands_ok o = true -> preplace_ready o T -> holds st T -> tt_op (ptop o) T = Ok T' ->
+  poperands_ok o = true -> is_node T = true -> preplace_ready o T -> holds st T -> tt_op (ptop o) T = Ok T' ->
   exists st', run_ops fixed (pcompile o) st = Ok st' /\ holds st' T'.
 Proof.
-  intros Hw Hready (ts & tid & ri & a & b & c & d & -> & HT) Ht.
+  intros Hw HnT Hready (ts & tid & ri & a & b & c & d & -> & HT) Ht.
   destruct o; cbn [poperands_ok ptop tt_op pcompile preplace_ready] in *.
   - (* push *)
-    injection Ht as <-. destruct (parse_entry_runs lead r alts ts tid ri T a b c d Hw HT) as (txt & R1 & HG & Ne).
+    injection Ht as <-. destruct T as [kT sT|kT csT]; [discriminate|].
+    destruct (parse_entry_runs lead r alts ts tid ri _ a b c d Hw HT) as (txt & R1 & HG & Ne).
+    destruct (push_runs (ts ++ [mk_slot true 0 (rtree_of (entry_field lead r alts))]) tid ri kT csT a b d (length ts) ([] ++ [length (ws_elems lead)]) _ _
+                (nth_error_app_l _ _ _ _ HT) (nth_error_app_at _ _) HG) as (ts2 & a2 & b2 & d2 & R2 & T2).
     eexists. split.
-    + eapply run_ops_cons; [exact R1|]. eapply run_ops_cons; [|reflexivity].
-      eapply push_runs_sub; [apply nth_error_app_l; exact HT|apply nth_error_app_at|exact HG].
-    + eapply holds_st5. apply nth_error_app_at.
+    + eapply run_ops_cons; [exact R1|]. eapply run_ops_cons; [exact R2|reflexivity].
+    + eapply holds_st5. exact T2.
   - (* insert *)
-    injection Ht as <-. destruct (parse_entry_runs lead r alts ts tid ri T a b c d Hw HT) as (txt & R1 & HG & Ne).
+    injection Ht as <-. destruct T as [kT sT|kT csT]; [discriminate|].
+    destruct (parse_entry_runs lead r alts ts tid ri _ a b c d Hw HT) as (txt & R1 & HG & Ne).
+    destruct (insert_runs i (ts ++ [mk_slot true 0 (rtree_of (entry_field lead r alts))]) tid ri kT csT a b d (length ts) ([] ++ [length (ws_elems lead)]) _ _
+                (nth_error_app_l _ _ _ _ HT) (nth_error_app_at _ _) HG) as (ts2 & a2 & b2 & d2 & R2 & T2).
     eexists. split.
-    + eapply run_ops_cons; [exact R1|]. eapply run_ops_cons; [|reflexivity].
-      eapply insert_runs_sub; [apply nth_error_app_l; exact HT|apply nth_error_app_at|exact HG].
-    + eapply holds_st5. apply nth_error_app_at.
+    + eapply run_ops_cons; [exact R1|]. eapply run_ops_cons; [exact R2|reflexivity].
+    + eapply holds_st5. exact T2.
   - (* replace *)
     destruct (entry_pos T i) as [ci|] eqn:Ep; [|discriminate]. injection Ht as <-.
     destruct (entry_pos_split _ _ _ Ep) as (k & pre & E & post & -> & <- & PE).
@@ -566,7 +492,8 @@ Proof.
     set (ts1 := ts ++ [mk_slot true 0 (rtree_of (entry_field lead r []))]) in *.
     pose proof (get_entry_runs_gen _ i (length pre) ts1 tid ri a b c
                   (Some (mk_hnd (length ts) ([length (ws_elems lead)] ++ [0]))) (nth_error_app_l _ _ _ _ HT) Ep) as R2.
-    destruct (epush_runs_sub k pre E post (rel_tree r true) ts1 tid ri b c (length ts) ([length (ws_elems lead)] ++ [0]) _
+    destruct (is_entry_node _ PE) as (ecs & ->).
+    destruct (epush_runs_gen k pre ENTRY ecs post (rel_tree r true) ts1 tid ri b c (length ts) ([length (ws_elems lead)] ++ [0]) _
                 (nth_error_app_l _ _ _ _ HT) (nth_error_app_at _ _) HG) as (ts3 & a3 & b3 & c3 & x & R3 & T3).
     eexists. split.
     + eapply run_ops_cons; [exact R1|]. eapply run_ops_cons; [exact R2|]. eapply run_ops_cons; [exact R3|reflexivity].
